@@ -234,6 +234,17 @@ pub fn gen_base(rng: &mut Rng, m: Meth, class: ProbClass, entry: Entry) -> Scena
         };
     }
     sc.jac = if rng.bool(0.5) { JacMode::Fd } else { JacMode::Analytic };
+    if sc.prob.linear_homogeneous() && !matches!(sc.prob, Problem::Zero { .. }) && rng.bool(0.08) {
+        // very small / very large state magnitudes: a linear homogeneous problem scales exactly,
+        // so only the absolute tolerance has to follow
+        let s = (10.0f64).powf(rng.uni(-100.0, 100.0));
+        for y in sc.y0.iter_mut() {
+            *y *= s;
+        }
+        for a in sc.atol.iter_mut() {
+            *a *= s;
+        }
+    }
     if m.implicit() && class != ProbClass::LinHom && rng.bool(0.04) {
         // singular-by-construction start: y' = lambda*y with first_step chosen so that the very
         // first iteration matrix is exactly singular (BDF: I - (h/alpha_1)*J with alpha_1 = 1.185;
@@ -269,6 +280,13 @@ pub fn gen_knobs(rng: &mut Rng, m: Meth) -> Knobs {
     }
     if rng.bool(0.5) {
         k.scale_max = Some(rng.uni(2.0, 12.0));
+    }
+    if matches!(m, Meth::DOPRI5 | Meth::DOP853 | Meth::RADAU) && rng.bool(0.2) {
+        // the rounding unit used by the step-size underflow guard. The builders accept (1e-35, 1),
+        // but a value below the true unit roundoff disables the guard (steps below one ulp of x are
+        // then legal and the run may crawl or spin) - that is a misconfiguration, not a defect,
+        // so only values at or above the default are drawn
+        k.uround = Some(rng.logu(2.3e-16, 1e-12));
     }
     if matches!(m, Meth::DOPRI5 | Meth::DOP853) {
         if rng.bool(0.5) {
